@@ -158,6 +158,7 @@ def run_obligation(res, prop, st_name, N, findings, scenario="single", cfg=None)
         return dict(runs=runs, ts=ts, flags=flags, structure=st, N=N, scenario=scenario, cfg=cfg)
 
     cands_cache = {}
+    pending_disagreements = []
 
     def payload(ctx, vals, thrs, what):
         return dict(what=what, replay=dict(family="stage", args=dict(prop=prop, structure=st_name, N=N, values=vals, thresholds=[repr(x) for x in thrs],
@@ -276,7 +277,12 @@ def run_obligation(res, prop, st_name, N, findings, scenario="single", cfg=None)
                     res["violations"].append(payload(ctx, vals, all_thr, "end-to-end witness: " + problems[0]))
                 res["witnesses"] += 1
                 return
-            raise HarnessError("engine/impl disagreement on x=%r thresholds=%r flags=%r: %s" % (vals, all_thr, ctx["flags"], mismatch))
+            # The stage run on the reference profile and the whole real pipeline differ on this input, and the property's own oracle sees nothing wrong with the
+            # real output *here* (e.g. only figures differ, which is another property's business).  Keep exploring: if another path of this obligation shows a
+            # violation of the property that is what gets reported; otherwise the obligation ends inconclusive (HarnessError below) - never silently.
+            if len(pending_disagreements) < 3:
+                pending_disagreements.append("engine/impl disagreement on x=%r thresholds=%r flags=%r: %s" % (vals, all_thr, ctx["flags"], mismatch))
+            return
         if viol is None and problems and any(r.get("e2e_only") for r in runs):
             if len(res["violations"]) < 3:
                 res["violations"].append(payload(ctx, vals, all_thr, "end-to-end witness: " + problems[0]))
@@ -292,6 +298,8 @@ def run_obligation(res, prop, st_name, N, findings, scenario="single", cfg=None)
     ex.explore(fn, on_path)
     absorb_stats(res, ex)
     res["extra"]["structure"] = [r.to_json() for r in st["rows"]]
+    if pending_disagreements and not res["violations"]:
+        raise HarnessError(pending_disagreements[0])
 
 
 def _delivery(r, st, vals, triples, shapemap):
